@@ -1,6 +1,8 @@
 package main
 
 import (
+	"verif/internal/ev"
+	"verif/internal/checks/relay"
 	"time"
 
 	"verif/internal/bfs"
@@ -38,11 +40,20 @@ func init() {
 			return bfs.Spec{Name: "C17", New: func() bfs.System { return c17.New(cfg) }, MaxDepth: cfg.Depth, Deadline: d}
 		},
 		rule: "explicit-state BFS on one real chain with two validators: sequences of real EVM transactions calling the Staking / Gov system contracts directly (EOA), through a hand-assembled forwarder contract that first writes its own storage (nested call, delegator = contract), through forwarders performing two calls in one transaction (same contract twice; a staking call and a governance call in either order, so that each hook sees a foreign event before or after its own), and through a look-alike contract emitting byte-identical events from a foreign address; arguments valid / unknown and malformed validator / amount 0 / above balance / unknown proposal / invalid option / weights not summing to 1; plus advancing past the voting period (deposit burn). Reference model of delegations and votes per actor; failures must leave balances, delegations, votes and the forwarder's storage unchanged; total supply constant after every step",
-		assume: []string{"cosmos-sdk staking/gov/distribution are trusted; 1:1 share rate (no slashing in the horizon)", "the packet-call-data path into the staking contract is exercised by C03 (hookfail)"},
+		assume: []string{"cosmos-sdk staking/gov/distribution are trusted; 1:1 share rate (no slashing in the horizon)", "the packet-call-data path into the staking contract is exercised by a scripted relay history (shared with C03's hookfail kind)"},
 		bounds: func(tier string) map[string]interface{} {
 			c := c17Cfg(tier)
 			return map[string]interface{}{"depth": c.Depth, "operations": c.Ops}
 		},
 		minClasses: 6,
+		// the remaining call path of the statement: a staking call carried as call data of a received cross-chain packet
+		extra: func(r *ev.Run, tier string) (int64, int64) {
+			steps, vs := relay.ScriptedViolations("C17")
+			for _, v := range vs {
+				r.Violation(v.Sig, v.Detail, map[string]interface{}{"engine": "bfs", "check": "C03", "tier": "script", "history": v.History})
+			}
+			r.Count("scripted_relay_steps", int64(steps))
+			return int64(steps), int64(steps)
+		},
 	})
 }
